@@ -251,3 +251,26 @@ def run(cx):
                                   "Semaphore::acquire_owned", "Semaphore::try_acquire_owned"), crates=["anemo_tower"], what="permit leak/adjust API")
         # positive control: the matcher sees the acquire calls
         ob.require(len(prog.callers_of("tokio::sync::semaphore::Semaphore::try_acquire", crates=["anemo_tower"])) == 1, "positive-control", "semaphore call matcher is blind", M)
+
+    with cx.ob("C18.5", "R-SHAPE", "one layer out: clones of the limiter share the per-peer semaphore map (field-by-field Clone) and poll_ready is the inner service's readiness only (no permit taken there)") as ob:
+        for ty in ("anemo_tower::inflight_limit::InflightLimit", "anemo_tower::inflight_limit::InflightLimitLayer"):
+            check_fieldwise_clone(ob, prog, ty)
+        check_poll_ready_delegates(ob, prog, "anemo_tower::inflight_limit::InflightLimit")
+        check_peer_id_identity_derived(ob, prog)
+        # the configured maximum is stored and handed on as given (no clamp, no default substituted): constructors and layer()
+        IL = "anemo_tower::inflight_limit"
+        for fn_, want in ((f"{IL}::InflightLimitLayer::new", "param"), (f"{IL}::InflightLimit::new", "param"), (f"{IL}::InflightLimit::layer", "param"),
+                          (f"<{IL}::InflightLimitLayer as tower_layer::Layer<S>>::layer", "self")):
+            fb = prog.bodies.get(fn_)
+            if fb is None:
+                raise AnchorLost(f"body {fn_}")
+            t = strip_identity(Origins(fb).of_local(0))
+            # (a constructor may delegate to another of these constructors)
+            if t[0] == "call" and name_matches(t[1], (f"{IL}::InflightLimitLayer::new", f"{IL}::InflightLimit::new")):
+                mx = [x for x in t[2] if is_param(x, "max_inflight")]
+                ob.require(len(mx) == 1, f"max-stored-as-given/{fn_.split('::')[-2]}::{fn_.split('::')[-1]}", f"{fn_} passes {show(t)[:100]}", fb.path)
+                continue
+            f = dict(zip(t[4], t[3])) if t[0] == "agg" and len(t) > 4 else {}
+            mx = strip_identity(f.get("max_inflight", ("?",)))
+            okm = is_param(mx, "max_inflight") if want == "param" else (mx[0] == "field" and mx[2] == "max_inflight" and is_param(mx[1], "self"))
+            ob.require(okm, f"max-stored-as-given/{fn_.split('::')[-2]}::{fn_.split('::')[-1]}", f"{fn_} stores max_inflight = {show(mx)[:80]}", fb.path)
